@@ -33,6 +33,15 @@ def impl_iprange_to_cidrs(a, b):
         assert alt == out, "IPRange.cidrs() differs from iprange_to_cidrs: %r vs %r" % (alt, out)
         alt2 = _nets(netaddr.iprange_to_cidrs(str(s.ip), str(e.ip)))
         assert alt2 == out, "string form differs"
+        if a[0] == 4:
+            gl = netaddr.iprange_to_globs(r._start, r._end)
+            if len(gl) == 1:      # glob-shaped: the same interval through glob_to_cidrs and a re-assigned IPGlob
+                assert _nets(netaddr.glob_to_cidrs(gl[0])) == out, "glob_to_cidrs differs from iprange_to_cidrs"
+                g = netaddr.IPGlob("0.0.0.*")
+                g.cidrs()
+                g.glob = gl[0]
+                assert _nets(g.cidrs()) == out, "IPGlob.cidrs() after assigning .glob differs from iprange_to_cidrs"
+        assert _nets(r.cidrs()) == out, "IPRange.cidrs() is not repeatable"
     return out
 
 
